@@ -2,7 +2,7 @@
 the analysed code calls.  Each model returns the abstract result (and performs writes through &mut arguments);
 NotImplemented means 'no model' (the interpreter then executes the local body or yields TOP and counts it)."""
 import re
-from absint import I, TOP, join, top_of, INT_TYPES, BITS, show_val
+from absint import I, TOP, join, top_of, INT_TYPES, BITS, show_val, widen
 
 
 class Models:
@@ -26,6 +26,8 @@ class Models:
         R(r"as core::iter::Iterator>::step_by$", self.m_step_by)
         R(r"as core::iter::Iterator>::filter::<", self.m_filter)
         R(r"as core::iter::Iterator>::map::<", self.m_map)
+        R(r"core::iter::once::<", lambda ip, fv, st, d, t, n, a, dty: ("it", "once", a[0], 0))
+        R(r"as core::iter::Iterator>::chain::<", self.m_chain)
         R(r"as core::iter::Iterator>::cloned::<|as core::iter::Iterator>::copied::<", self.m_cloned)
         R(r"core::slice::<impl \[.*\]>::(iter|iter_mut)$", self.m_slice_iter)
         R(r"core::slice::<impl \[.*\]>::chunks(_exact)?$", self.m_chunks)
@@ -34,12 +36,16 @@ class Models:
         R(r"core::slice::<impl \[.*\]>::copy_from_slice$|clone_from_slice$", self.m_copy_from_slice)
         R(r"ops::Index(Mut)?<core::ops::Range(Full|To<usize>|From<usize>|Inclusive<usize>|ToInclusive<usize>|<usize>)>.*::index(_mut)?$", self.m_index_range)
         R(r"core::array::<impl core::ops::Index(Mut)?<.*> for \[.*\]>::index(_mut)?$|core::slice::index::<impl core::ops::Index(Mut)?<.*> for \[.*\]>::index(_mut)?$", self.m_index_range)
+        R(r"generic_array::GenericArray(::)?<.*>::as_(mut_)?slice$|generic_array::GenericArray<.*> as core::ops::Deref(Mut)?>::deref(_mut)?$", self.m_unsize_ref)
         R(r"core::ops::Deref(Mut)?>::deref(_mut)?$|core::convert::AsRef<.*>>::as_ref$|core::convert::AsMut<.*>>::as_mut$|core::borrow::Borrow(Mut)?<.*>>::borrow(_mut)?$", self.m_identity_ref)
         R(r"core::clone::Clone>::clone$", self.m_clone)
         R(r"core::convert::(Into|From)<.*>>::(into|from)$|impl core::convert::From<.*> for .*>::from$", self.m_convert)
         R(r"core::convert::(TryInto|TryFrom)<.*>>::(try_into|try_from)$|core::array::<impl core::convert::TryFrom<.*>::try_from$", self.m_try_into)
         R(r"core::result::Result(::)?<.*>::(unwrap|expect)$|core::option::Option(::)?<.*>::(unwrap|expect)$", self.m_unwrap)
         R(r"core::ops::Try>::branch$", self.m_try_branch)
+        R(r"core::option::Option(::)?<.*>::(map|ok_or|ok_or_else|and_then|is_some|is_none|unwrap_or|unwrap_or_default|copied|cloned|as_ref)(::<.*>)?$|"
+          r"core::result::Result(::)?<.*>::(map|map_err|ok|is_ok|is_err|and_then)(::<.*>)?$", self.m_enum_comb)
+        R(r"core::ops::FromResidual<.*>>::from_residual$", self.m_from_residual)
         R(r"core::hint::black_box", lambda ip, fv, st, d, t, n, a, dty: a[0])
         R(r"core::mem::swap", self.m_swap)
         R(r"core::mem::replace", self.m_replace)
@@ -69,6 +75,9 @@ class Models:
         R(r"alloc::vec::Vec(::)?<.*>::push$", self.m_vec_push)
         R(r"alloc::vec::Vec(::)?<.*>::len$", self.m_len)
         R(r"as core::iter::Iterator>::collect::<.*Vec<", self.m_collect_vec)
+        R(r"alloc::vec::Vec<.*> as core::ops::Index(Mut)?<usize>>::index(_mut)?$", self.m_index_range)
+        R(r"as core::iter::Iterator>::fold::<", self.m_fold)
+        R(r"as core::iter::Iterator>::size_hint$|as core::iter::ExactSizeIterator>::len$", self.m_size_hint)
         # panics
         R(r"core::panicking::", self.m_panic)
         # misc no-ops
@@ -286,6 +295,30 @@ class Models:
                 return ("en", ((0, ()), (1, (elem(idx),)))), pack(I(cur[1], min(cur[2] + 1, end[2])), end)
             idx = I(max(cur[1], end[1] - 1), end[2] - 1)
             return ("en", ((0, ()), (1, (elem(idx),)))), pack(cur, I(max(cur[1], end[1] - 1), end[2]))
+        if k == "once":
+            if it[3]:
+                return ("en", ((0, ()),)), it
+            return ("en", ((1, (it[2],)),)), ("it", "once", it[2], 1)
+        if k == "chain":
+            ia, na = self.step(ip, st, it[2])
+            na = na if na is not None else it[2]
+            if ia[0] == "en" and all(v == 1 for v, _ in ia[1]):
+                return ia, ("it", "chain", na, it[3])
+            ib, nb = self.step(ip, st, it[3])
+            nb = nb if nb is not None else it[3]
+            if ia[0] != "en" or ib[0] != "en":
+                return TOP, ("it", "chain", na, nb)
+            somes = [fs[0] for v, fs in ia[1] if v == 1] + [fs[0] for v, fs in ib[1] if v == 1]
+            outs = []
+            if any(v == 0 for v, _ in ib[1]):
+                outs.append((0, ()))
+            if somes:
+                e = somes[0]
+                for x in somes[1:]:
+                    e = join(e, x)
+                outs.append((1, (e,)))
+            a_only_none = all(v == 0 for v, _ in ia[1])
+            return ("en", tuple(outs)), ("it", "chain", na, nb if a_only_none else join(it[3], nb))
         if k == "vecvals":
             v = it[2]
             elem = v[1] if v[1] is not None else TOP
@@ -393,7 +426,9 @@ class Models:
             cf = ip.F.fns.get(c[1])
             if cf and "mir" in cf:
                 # closure body: param 1 = env (by ref or value), then args
-                return ip.call_local(cf, [clo if clo[0] in ("ref",) else ("cref", c)] + list(args), st, len(st.frames) - 1)
+                byref = cf["mir"]["locals"][1]["ty"].startswith("&")
+                env = (clo if clo[0] in ("ref",) else ip.intern_const(st, c)) if byref else c
+                return ip.call_local(cf, [env] + list(args), st, len(st.frames) - 1)
         if c[0] == "fnp":
             f = ip.F.fns.get(c[2]) if len(c) > 2 else None
             if f and "mir" in f:
@@ -449,16 +484,126 @@ class Models:
         a = [self.as_it(ip, st, a[0])] + list(a[1:])
         return ("it", "map", a[0], a[1]) if a[0][0] == "it" else TOP
 
+    def m_chain(self, ip, fv, st, depth, t, n, a, dty):
+        x = self.as_it(ip, st, a[0])
+        y = self.as_it(ip, st, a[1])
+        if y[0] != "it":
+            y = self.m_into_iter(ip, fv, st, depth, t, n, [y], dty)
+        if x[0] == "it" and y is not NotImplemented and y[0] == "it":
+            return ("it", "chain", x, y)
+        return TOP
+
     def m_cloned(self, ip, fv, st, depth, t, n, a, dty):
         a = [self.as_it(ip, st, a[0])] + list(a[1:])
         return ("it", "cloned", a[0]) if a[0][0] == "it" else TOP
 
     def m_collect_vec(self, ip, fv, st, depth, t, n, a, dty):
+        wrapped = re.search(r"collect::<core::(result::Result|option::Option)<", n)
+        v = self.collect_vec(ip, st, a[0], (0 if "result::Result" in wrapped.group(1) else 1) if wrapped else None)
+        if wrapped:
+            # Result<Vec<T>, E> / Option<Vec<T>>: Ok/Some is variant (0 for Result, 1 for Option)
+            if "result::Result" in wrapped.group(1):
+                return ("en", ((0, (v,)), (1, (TOP,))))
+            return ("en", ((0, ()), (1, (v,))))
+        return v
+
+    def iter_len(self, ip, st, it):
+        """(lo, hi) bounds on the number of items the iterator still yields"""
+        BIG = 2**32
+        if it[0] == "st" and len(it[1]) == 2 and it[1][0][0] == "i" and it[1][1][0] == "i":
+            it = ("it", "range", it[1][0], it[1][1], 0)
+        if it[0] != "it":
+            return (0, BIG)
+        k = it[1]
+        if k == "range":
+            cur, end = it[2], it[3]
+            return (max(0, end[1] - cur[2]), max(0, end[2] - cur[1]))
+        if k in ("slice", "cvals", "vals"):
+            cur, end = it[3], it[4]
+            return (max(0, end[1] - cur[2]), max(0, end[2] - cur[1]))
+        if k in ("rev", "map", "cloned", "enum"):
+            return self.iter_len(ip, st, it[2])
+        if k == "zip":
+            a, b = self.iter_len(ip, st, it[2]), self.iter_len(ip, st, it[3])
+            return (min(a[0], b[0]), min(a[1], b[1]))
+        if k == "chain":
+            a, b = self.iter_len(ip, st, it[2]), self.iter_len(ip, st, it[3])
+            return (a[0] + b[0], min(BIG, a[1] + b[1]))
+        if k == "once":
+            return (0, 0) if it[3] else (1, 1)
+        if k == "vecvals":
+            return (it[2][2], it[2][3])
+        if k == "filter":
+            return (0, self.iter_len(ip, st, it[2])[1])
+        if k == "skip" and it[3][0] == "i":
+            a = self.iter_len(ip, st, it[2])
+            return (max(0, a[0] - it[3][2]), max(0, a[1] - it[3][1]))
+        return (0, BIG)
+
+    def m_size_hint(self, ip, fv, st, depth, t, n, a, dty):
         it = a[0]
+        for _ in range(3):
+            if it[0] in ("ref", "cref"):
+                it = ip.deref_val(st, it)
+        it = self.as_it(ip, st, it)
+        if it[0] != "it":
+            return NotImplemented
+        lo, hi = self.iter_len(ip, st, it)
+        if n.endswith("::len"):
+            return I(lo, hi)
+        exact = self.exact_size(it)
+        # (lower, Option<upper>): for exact-size chains both equal the true length
+        return ("st", (I(lo, hi) if exact else I(0, hi), ("en", ((1, (I(lo, hi),)),)) if exact else ("en", ((0, ()), (1, (I(lo, 2**64 - 1),))))))
+
+    def exact_size(self, it):
+        if it[0] != "it":
+            return False
+        k = it[1]
+        if k in ("range", "slice", "cvals", "vals", "once", "vecvals"):
+            return True
+        if k in ("rev", "map", "cloned", "enum"):
+            return self.exact_size(it[2])
+        if k in ("zip", "chain"):
+            return self.exact_size(it[2]) and self.exact_size(it[3])
+        return False
+
+    def m_fold(self, ip, fv, st, depth, t, n, a, dty):
+        it = self.as_it(ip, st, a[0])
+        if it[0] != "it":
+            return NotImplemented
+        acc, clo = a[1], a[2]
+        summarised = False
+        for k in range(80):
+            item, new = self.step(ip, st, it)
+            if item[0] != "en":
+                return ip.default_value(dty)
+            somes = [fs for v, fs in item[1] if v == 1]
+            if not somes:
+                return acc
+            r = self.apply_closure(ip, st, clo, [acc, somes[0][0]])
+            may_end = any(v == 0 for v, _ in item[1])
+            nacc = join(acc, r) if (may_end or summarised) else r
+            nit = new if new is not None else it
+            if k >= 3:
+                # summarise the iterator (any remaining element); the accumulator is joined until stable, widened late
+                nit = widen(it, join(it, nit))
+                summarised = True
+            if k >= 40:
+                nacc = widen(acc, nacc)
+            if nit == it and nacc == acc:
+                return acc
+            it, acc = nit, nacc
+        return ip.default_value(dty)
+
+    def collect_vec(self, ip, st, it, wrapped):
         if it[0] != "it":
             return ("vec", TOP, 0, 2**32)
+        n_lo, n_hi = self.iter_len(ip, st, it)
+        r = self.collect_vec1(ip, st, it, wrapped)
+        return ("vec", r[1], n_lo if r[2] == 0 and r[3] == 2**32 else r[2], n_hi if r[3] == 2**32 else r[3])
+
+    def collect_vec1(self, ip, st, it, wrapped):
         elem = None
-        cnt_lo = cnt_hi = 0
         for _ in range(4):
             item, new = self.step(ip, st, it)
             if item[0] != "en":
@@ -466,13 +611,36 @@ class Models:
             somes = [fs for v, fs in item[1] if v == 1]
             if not somes:
                 break
-            elem = join(elem, somes[0][0]) if elem is not None else somes[0][0]
+            e = somes[0][0]
+            if wrapped is not None:
+                # the items are Result<T,E> / Option<T>: keep the success payloads (variant index `wrapped`)
+                if e[0] != "en":
+                    return ("vec", TOP, 0, 2**32)
+                oks = [fs[0] for v, fs in e[1] if v == wrapped and len(fs) == 1]
+                if not oks:
+                    it = new if new is not None else it
+                    continue
+                e = oks[0]
+            elem = join(elem, e) if elem is not None else e
             if new is None or new == it:
                 break
             it = new
         return ("vec", elem if elem is not None else TOP, 0, 2**32)
 
     # ------------------------------------------------------------------ slices / arrays
+    def m_from_residual(self, ip, fv, st, depth, t, n, a, dty):
+        if dty.startswith("core::option::Option<"):
+            return ("en", ((0, ()),))
+        if dty.startswith("core::result::Result<"):
+            parts = [p.strip() for p in __import__("absint").split_top(dty[len("core::result::Result<"):-1])]
+            return ("en", ((1, (ip.default_value(parts[1]) if len(parts) == 2 else TOP,)),))
+        return NotImplemented
+
+    def m_unsize_ref(self, ip, fv, st, depth, t, n, a, dty):
+        if a[0][0] == "ref" and ip.deref_val(st, a[0])[0] == "arr":
+            return ip.unsize(st, a[0])
+        return NotImplemented
+
     def m_len(self, ip, fv, st, depth, t, n, a, dty):
         return ip.length_of(st, a[0])
 
@@ -564,7 +732,7 @@ class Models:
         v = a[0]
         if v[0] == "ref":
             tgt = ip.read_path(st.frames[v[1]].get(v[2], TOP), v[3])
-            if tgt[0] in ("ref", "sl", "cref") and not re.search(r"Borrow", n):
+            if tgt[0] in ("ref", "sl", "cref") and (not re.search(r"Borrow", n) or re.match(r"^&('\w+ )?(mut )?[^&]", dty)):
                 return tgt
             if tgt[0] == "vec" or (tgt[0] == "arr" and re.search(r"\[", dty) and "; " not in dty):
                 return ip.unsize(st, v)
@@ -611,6 +779,72 @@ class Models:
                 outs.append((1, (TOP,)))
             return ("en", tuple(outs))
         return ("en", ((0, (ip.default_value(re.sub(r"^core::result::Result<(.*), [^,]*>$", r"\1", dty)),)), (1, (TOP,))))
+
+    def m_enum_comb(self, ip, fv, st, depth, t, n, a, dty):
+        is_res = "result::Result" in n
+        mm = re.search(r">::(map|map_err|ok_or|ok_or_else|and_then|is_some|is_none|is_ok|is_err|ok|unwrap_or|unwrap_or_default|copied|cloned|as_ref)(::<.*>)?$", n)
+        op = mm.group(1)
+        good = 0 if is_res else 1
+        v = a[0]
+        if v[0] == "ref" and op == "as_ref":
+            v = ip.deref_val(st, v)
+            if v[0] != "en":
+                return NotImplemented
+            base = a[0]
+            return ("en", tuple((var, (("ref", base[1], base[2], base[3] + (("v", var), ("f", 0))),) if fs else ()) for var, fs in v[1]))
+        if v[0] == "cref":
+            v = v[1]
+        if v[0] != "en":
+            aty = (t.get("arg_tys") or [""])[0]
+            v = ip.default_value(aty)
+            if v[0] != "en":
+                if __import__("os").environ.get("ABSINT_DEBUG"):
+                    print("m_enum_comb: not an enum", a[0][:2], aty)
+                return NotImplemented
+        outs = []
+
+        def add(var, fs):
+            for i, (v2, f2) in enumerate(outs):
+                if v2 == var:
+                    outs[i] = (var, tuple(join(x, y) for x, y in zip(f2, fs)))
+                    return
+            outs.append((var, fs))
+        for var, fs in v[1]:
+            isgood = var == good
+            if op in ("is_some", "is_ok"):
+                add("b", (I(1 if isgood else 0),))
+            elif op in ("is_none", "is_err"):
+                add("b", (I(0 if isgood else 1),))
+            elif op == "map" and isgood:
+                add(var, (self.apply_closure(ip, st, a[1], [fs[0]]),))
+            elif op == "map_err" and not isgood:
+                add(var, (self.apply_closure(ip, st, a[1], [fs[0]]),))
+            elif op in ("map", "map_err"):
+                add(var, fs)
+            elif op == "ok_or":
+                add(0, (fs[0],)) if isgood else add(1, (a[1],))
+            elif op == "ok_or_else":
+                add(0, (fs[0],)) if isgood else add(1, (self.apply_closure(ip, st, a[1], []),))
+            elif op == "ok":
+                add(1, (fs[0],)) if isgood else add(0, ())
+            elif op == "and_then":
+                if isgood:
+                    r = self.apply_closure(ip, st, a[1], [fs[0]])
+                    if r[0] != "en":
+                        return ip.default_value(dty)
+                    for v3, f3 in r[1]:
+                        add(v3, f3)
+                else:
+                    add(var, fs)
+            elif op in ("unwrap_or", "unwrap_or_default"):
+                add("u", (fs[0] if isgood else (a[1] if op == "unwrap_or" else ip.default_value(dty)),))
+            elif op in ("copied", "cloned"):
+                add(var, (ip.deref_val(st, fs[0]),) if isgood else fs)
+            else:
+                return NotImplemented
+        if outs and outs[0][0] in ("b", "u"):
+            return outs[0][1][0]
+        return ("en", tuple(sorted(outs, key=lambda x: x[0])))
 
     def m_unwrap(self, ip, fv, st, depth, t, n, a, dty):
         v = a[0]
